@@ -237,6 +237,16 @@ def maybe_null_field_at_call(prog, f, P, call, argidx, field, may_null):
             src = s
     if src is None:
         return None
+    # the value that was stored may itself have been tested (a local holds the allocation until it is known to be good)
+    v = src.ops[0]
+    if v.kind == "reg":
+        regs = maybe_null_regs(f, v.v)
+        d0 = f.defs.get(v.v)
+        while d0 is not None and d0.op == "bitcast" and d0.ops[0].kind == "reg":
+            regs |= maybe_null_regs(f, d0.ops[0].v)
+            d0 = f.defs.get(d0.ops[0].v)
+        if flow.guarded_nonnull(f, regs, call):
+            return None
     cfg = cfg_of(f)
     if src.block is not call.block and call.block not in cfg.reachable_from(src.block):
         return None
